@@ -212,6 +212,11 @@ class MainWorld(SessionWorld):
                     acts.append((4.0, "router", self.router_act))
                 if self.ops_left > 0:
                     acts.append((2.5, "app", self.app_act))
+            if not self.violated and self.illegal_at is not None and not self.illegal_done and self.router_state == "goodbye-sent" \
+                    and self.ended and self.session._session_id is None and not self.pending_user:
+                # the session has ended, the transport is still there (closing or not): whatever still arrives - a GOODBYE
+                # sent twice, a late EVENT or RESULT - belongs to no session and is a protocol violation
+                acts.append((1.5, "router-message-after-session-end", self.router_illegal_after_end))
             if t.closing is not None or self.violated:
                 acts.append((3.0, "transport-closed", lambda: self.lose(t.closing != "abort" and not self.violated)))
             elif self.mode == "cut":
@@ -395,6 +400,23 @@ class MainWorld(SessionWorld):
         if before != after:
             self.run.violate("C06.phase-gate", "illegal-message-changed-state:%s" % type(msg).__name__, "%r -> %r" % (before, after))
         self.violated = True  # the real transports close the connection on a protocol violation
+
+    def router_illegal_after_end(self):
+        ch = self.run.ch
+        M = self.M
+        self.illegal_done = True
+        msg = ch.pick((M.Goodbye("wamp.close.normal", "again"), M.Event(1, 2, args=[1]), M.Result(1, args=[1]), M.Published(1, 2)), "illegal-after-end")
+        self.run.fault("illegal-message-after-session-end:" + type(msg).__name__)
+        before = (tuple(self.cbs), tuple(self.obs), len(self.t.sent), self.session._session_id)
+        exc = self.deliver(msg)
+        self.settle()
+        from autobahn.wamp.exception import ProtocolError
+        if not isinstance(exc, ProtocolError):
+            self.run.violate("C06.phase-gate", "illegal-%s-after-session-end:%s" % (type(msg).__name__, type(exc).__name__ if exc else "accepted"), "")
+        after = (tuple(self.cbs), tuple(self.obs), len(self.t.sent), self.session._session_id)
+        if before != after:
+            self.run.violate("C06.phase-gate", "illegal-message-changed-state:%s:after-session-end" % type(msg).__name__, "%r -> %r" % (before, after))
+        self.violated = True
 
     def app_act(self):
         ch = self.run.ch
